@@ -55,11 +55,12 @@ Theorem tie_getChunkSize (cm card md : N) : card < two64 -> md < two64 ->
 Proof.
   intros Hc Hm.
   unfold g_getChunkSize, Chunk.getChunkSize. unfold_consts. cbv zeta.
+  drop_wraps.
   repeat match goal with
   | |- context [?a <=? ?b] => destruct (N.leb_spec a b)
   | |- context [?a =? ?b] => destruct (N.eqb_spec a b)
   | |- context [?a <? ?b] => destruct (N.ltb_spec a b)
-  end; try reflexivity; try (exfalso; lia);
+  end; try reflexivity; try (exfalso; unfold wrap64, two64 in *; lia);
   drop_wraps;
   first [ reflexivity
         | f_equal; lia
@@ -67,14 +68,12 @@ Proof.
         | f_equal; f_equal; f_equal; lia ].
 Qed.
 
-Theorem tie_getChunkSize_no_div_by_zero (cm card md : N) : card < two64 ->
+Theorem tie_getChunkSize_no_div_by_zero (cm card md : N) : card < two64 -> md < two64 ->
+  (* the translated code guards every Go division: the guard never fires *)
   g_getChunkSize cm card md <> Panic.
 Proof.
-  intros Hc.
-  unfold g_getChunkSize. cbv zeta.
-  repeat match goal with
-  | |- context [if ?c then _ else _] => destruct c
-  end; discriminate.
+  intros Hc Hm. rewrite (tie_getChunkSize cm card md Hc Hm).
+  destruct (Chunk.getChunkSize cm card md); discriminate.
 Qed.
 
 (* ------------------------------------------------------------------ *)
